@@ -365,13 +365,16 @@ def run_proxy(case):
                 name = op[1]
                 iface = op[2]
                 s = {'hits': [], 'name': name, 'iface': iface, 'active': True}
+                declared = any(name in sigs[i] for i in sigs if iface in (None, i))
                 try:
                     d = prox.notifyOnSignal(name, lambda *a, s=s: s['hits'].append(list(a)), interface=iface)
                 except AttributeError:
-                    declared = any(name in sigs[i] for i in sigs if iface in (None, i))
                     if declared:
                         out.append(Disc('proxy.declared-signal-refused', repr(op)))
                     continue
+                if not declared:
+                    out.append(Disc('proxy.undeclared-signal-accepted', 'notifyOnSignal(%r, interface=%r) did not fail' % (name, iface)))
+                    break
                 r = []
                 d.addBoth(r.append)
                 sent = [m for k, m in rig.sent_messages() if k == 'msg']
